@@ -26,7 +26,9 @@ ITEM_NAMES = sorted(ITEMS)
 MAX_LIVE = 6
 # The items of a history can be of three kinds (the managers store arbitrary objects and read their value through valueof):
 #   "str"    names, values from a table;  "int"  plain numbers that are their own value;  "tuple"  (name, value) records.
-ITEM_KINDS = ("str", "int", "tuple")
+ITEM_KINDS = ("str", "int", "tuple", "intname")     # "intname": integer ids whose value comes from a table (NOT the id itself)
+INT_NAME_VALUES = {i: ITEMS[n] for i, n in enumerate(ITEM_NAMES)}
+INT_NAME_VALUES = {i: INT_NAME_VALUES[(i * 7 + 3) % len(ITEM_NAMES)] for i in INT_NAME_VALUES}      # unrelated to the id
 
 
 def item_of(kind, index):
@@ -35,10 +37,14 @@ def item_of(kind, index):
         return ITEMS[name]
     if kind == "tuple":
         return (name, ITEMS[name])
+    if kind == "intname":
+        return index % len(ITEM_NAMES)
     return name
 
 
 def value_of(kind, item):
+    if kind == "intname":
+        return INT_NAME_VALUES[item]
     if kind == "int":
         return item
     if kind == "tuple":
@@ -59,6 +65,8 @@ def make_binner(manager, kind="str"):
         return cls()                                    # the default value function: the item is its value
     if kind == "tuple":
         return cls(lambda item: item[1])
+    if kind == "intname":
+        return cls(INT_NAME_VALUES.__getitem__)
     return cls(ITEMS.__getitem__)
 
 
